@@ -289,12 +289,28 @@ def engine_tables(repo, enums):
                     bail('_process_query: operations reassigned', n)
             if isinstance(n, ast.Call) and src(n.func).startswith('operations.'):
                 bail('_process_query: operations mutated outside the QUERY_OPERATIONS block', n)
+    # the answer is built afresh on every call: one return, of the payload constructed once in this call
+    qrets = [n for n in ast.walk(pq) if isinstance(n, ast.Return)]
+    qctor = [n for n in ast.walk(pq) if isinstance(n, ast.Assign) and isinstance(n.value, ast.Call)
+             and src(n.value.func) == 'payloads.QueryResponsePayload']
+    if len(qrets) != 1 or len(qctor) != 1 or len(qctor[0].targets) != 1 or src(qrets[0].value) != src(qctor[0].targets[0]) \
+            or qrets[0] is not pq.body[-1]:
+        bail('_process_query: does not end in the single return of the payload it constructs', qrets[0] if qrets else pq)
+    for n in ast.walk(pq):
+        if isinstance(n, (ast.Assign, ast.AugAssign)):
+            for tg in (n.targets if isinstance(n, ast.Assign) else [n.target]):
+                if src(tg).startswith('self.'):
+                    bail('_process_query: stores state on the engine (%s)' % src(tg), n)
     kws = [k for n in ast.walk(pq) if isinstance(n, ast.Call) and src(n.func) == 'payloads.QueryResponsePayload' for k in n.keywords]
     if [src(k.value) for k in kws if k.arg == 'operations'] != ['operations']:
         bail('_process_query: response payload operations argument not recognised')
 
     # --- response header version
     pr = methods.get('process_request') or bail('no process_request')
+    # the version of the request is engine state (self._protocol_version, self._attribute_policy): the whole of
+    # process_request has to run under the engine lock (interleavings themselves are property C10's)
+    if [src(d) for d in pr.decorator_list] != ['_synchronize']:
+        bail('process_request is not decorated with exactly @_synchronize', pr)
     calls = [n for n in ast.walk(pr) if isinstance(n, ast.Call) and src(n.func) == 'self._build_response']
     if len(calls) != 1 or len(calls[0].args) < 1:
         bail('process_request: _build_response call not recognised', pr)
